@@ -512,3 +512,53 @@ pub fn run_write(case: &PipeCase, record_data: bool) -> WriteOutcome {
         probes: bigtools::verif::take_probes(),
     }
 }
+
+
+/// Runs a subprocess of the code under test with a deadline (a tool that never finishes must not outlive the
+/// worker as an orphan): Err(TimedOut) after `secs`, the child is killed.
+pub fn output_with_deadline(mut cmd: std::process::Command, secs: u64) -> std::io::Result<std::process::Output> {
+    use std::io::Read;
+    use std::process::Stdio;
+    cmd.stdout(Stdio::piped()).stderr(Stdio::piped());
+    let mut child = cmd.spawn()?;
+    let mut so = child.stdout.take();
+    let mut se = child.stderr.take();
+    let t_out = std::thread::spawn(move || {
+        let mut v = vec![];
+        if let Some(s) = so.as_mut() {
+            let _ = s.read_to_end(&mut v);
+        }
+        v
+    });
+    let t_err = std::thread::spawn(move || {
+        let mut v = vec![];
+        if let Some(s) = se.as_mut() {
+            let _ = s.read_to_end(&mut v);
+        }
+        v
+    });
+    let deadline = std::time::Instant::now() + std::time::Duration::from_secs(secs);
+    let status = loop {
+        match child.try_wait()? {
+            Some(st) => break st,
+            None => {
+                if std::time::Instant::now() > deadline {
+                    let _ = child.kill();
+                    let _ = child.wait();
+                    let _ = t_out.join();
+                    let _ = t_err.join();
+                    return Err(std::io::Error::new(
+                        std::io::ErrorKind::TimedOut,
+                        format!("no exit within {} s (killed)", secs),
+                    ));
+                }
+                std::thread::sleep(std::time::Duration::from_millis(5));
+            }
+        }
+    };
+    Ok(std::process::Output {
+        status,
+        stdout: t_out.join().unwrap_or_default(),
+        stderr: t_err.join().unwrap_or_default(),
+    })
+}
